@@ -332,8 +332,10 @@ class C05(NlpCheck):
                         except RuntimeError:
                             sol = ocp.non_converged_solution
                         val = float(sol.value(ocp.objective))
-                        objs = sol.stats['iterations']['obj']
-                    if np.isfinite(val) and not (abs(val - objs[-1]) <= 1e-8 * max(1.0, abs(val))):
+                        objs = sol.stats.get('iterations', {}).get('obj') or []      # absent when ipopt stopped before its first iteration
+                    if not objs:
+                        self.count("late-terms-solver-did-not-iterate")
+                    elif np.isfinite(val) and not (abs(val - objs[-1]) <= 1e-8 * max(1.0, abs(val))):
                         err = "after %s: sol.value(ocp.objective)=%r but the solver minimised %r" % (hist, val, objs[-1])
             except (ZeroDivisionError, OverflowError):
                 continue
